@@ -113,11 +113,14 @@ def run(ctx):
             sep = rng.choice(sep_pool)
             if sep == "" and not closed:
                 continue
-            if stext.rstrip()[-1:] not in "}]\"" and "//" in stext.split("\n")[-1] and "\n" not in sep and sep != "":
-                continue          # an inline annotation runs to the end of the line: only a line break ends the schema
-            if "//" in stext.split("\n")[-1] and "\n" not in sep and "\r" not in sep:
-                continue
+            last = stext.split("\n")[-1]
+            annot_tail = last.split("//", 1)[1].strip() if "//" in last else None
+            pure_object = annot_tail is not None and annot_tail.startswith("{") and annot_tail.endswith("}") and annot_tail.count("{") == annot_tail.count("}") and '"' not in annot_tail
+            if annot_tail is not None and not pure_object and "\n" not in sep and "\r" not in sep:
+                continue          # a note runs to the end of the line: only a line break ends the schema
             t = rng.choice(trail_pool)
+            if pure_object and "\n" not in sep and "\r" not in sep and t[:1] in "-#/":
+                continue          # after the closing bracket of an inline annotation object a note, a comment or another annotation may still follow on the line
             sl.append(json.dumps({"schema": stext + sep + t, "ops": [["len"]]}))
             smeta.append((stext, sep, t))
     for (stext, sep, t), o in zip(smeta, vc.impl_parallel(["schema"], sl)):
